@@ -71,8 +71,9 @@ def make_obs(indices):
 # recorder
 
 def _bits(t):
-    a = t.detach().cpu().contiguous()
-    return (tuple(a.shape), str(a.dtype), a.numpy().tobytes())
+    # contents = the 0/1 values (a float32 / int64 buffer and its float64 conversion hold the same contents)
+    a = t.detach().cpu().to(torch.double).contiguous()
+    return (tuple(a.shape), a.numpy().tobytes())
 
 
 class Recorder:
@@ -369,11 +370,14 @@ def merge_sq(avg_a, var_a, len_a, avg_b, var_b, len_b):
 # ---------------------------------------------------------------------------
 # spec -> code, part B: replay a schedule behaviour
 
-def user_buffer(L, n, seed):
+def user_buffer(L, n, seed, conv=False):
     if L == 0:
         return None
     g = torch.Generator().manual_seed(seed)
-    return torch.randint(0, 2, (L, n), generator=g).to(torch.double)
+    t = torch.randint(0, 2, (L, n), generator=g)
+    if conv:          # a 0/1 tensor as a data file or a default-dtype constructor gives it
+        return t if seed % 2 else t.to(torch.float32)
+    return t.to(torch.double)
 
 
 def replay_schedule(tally, beh, state, obs_idx, seed, site="replay", state_id=None):
@@ -381,7 +385,7 @@ def replay_schedule(tally, beh, state, obs_idx, seed, site="replay", state_id=No
     n = state.num_visible
     obs_list = make_obs(obs_idx)
     names = [OBS[i][0] for i in obs_idx]
-    user = user_buffer(cfg["L"], n, seed)
+    user = user_buffer(cfg["L"], n, seed, cfg.get("conv", False))
     torch.manual_seed(seed)
     out = real_call(cfg, state, obs_list, user)
     size = cfg["S"] * 100 + beh["cp"]
@@ -414,7 +418,11 @@ def replay_schedule(tally, beh, state, obs_idx, seed, site="replay", state_id=No
             tally.add(site + ":zero-steps-moved-the-chains", "a draw with k = 0 Gibbs steps returned other states than it started from",
                       dict(info, draw=i + 1, call=c), size)
             ok = False
-    if cfg["L"] > 0:
+    if cfg["L"] > 0 and cfg.get("conv"):
+        if not out["user_same"]:
+            tally.add(site + ":user-buffer:overwritten", "a buffer that had to be converted was modified", info, size)
+            ok = False
+    elif cfg["L"] > 0:
         if cfg["ow"] and not out["user_is_last"]:
             tally.add(site + ":user-buffer:not-overwritten", "overwrite=True but initial_state does not hold the final chain states", info, size)
             ok = False
@@ -434,7 +442,7 @@ def fixed(x):
 def to_trace(cfg, out, n):
     """One observation -> one TraceStats line (cfg carries L and nobs)."""
     ev = [dict(e="Call", kind=cfg["kind"], nobs=cfg["nobs"], S=cfg["S"], C=cfg["C"], burn=cfg["burn"],
-               steps=cfg["steps"], L=cfg["L"], ow=cfg["ow"])]
+               steps=cfg["steps"], L=cfg["L"], ow=cfg["ow"], conv=bool(cfg.get("conv", False)))]
     for c, v in zip(out["calls"], out["vals"]):
         ev.append(dict(c, e="Draw", vals=v))
     N = sum(len(v[0]) for v in out["vals"])
@@ -463,7 +471,8 @@ def malformed(line):
     ev = line.get("ev")
     if not _INT(line.get("n")) or not isinstance(ev, list) or len(ev) < 2:
         return "line"
-    if set(ev[0]) != set(_CALL) | {"e"} or ev[0]["e"] != "Call" or not all(f(ev[0][k]) for k, f in _CALL.items()):
+    if set(ev[0]) - {"conv"} != set(_CALL) | {"e"} or ev[0]["e"] != "Call" or not all(f(ev[0][k]) for k, f in _CALL.items()) \
+            or not _BOOL(ev[0].get("conv", False)):
         return "Call"
     if ev[0]["nobs"] < 1 or ev[0]["S"] < 1:
         return "Call"
@@ -547,7 +556,7 @@ def rerun(repro):
         st = make_state(kind, n, sseed)
         obs_list = make_obs(repro["obs"])
         names = [OBS[i][0] for i in repro["obs"]]
-        user = user_buffer(cfg["L"], n, repro["seed"])
+        user = user_buffer(cfg["L"], n, repro["seed"], cfg.get("conv", False))
         torch.manual_seed(repro["seed"])
         out = real_call(cfg, st, obs_list, user)
         ok = check_numbers(t, "replay", cfg, names, out, n)
